@@ -1,9 +1,11 @@
 (* C07 -- canonical identity: one encoding per value, id is the hash of it.
    Consensus objects: round trip for every well-formed value (wf = what struct.pack and the constructors accept) and
    canonicity for every byte string; ids cached at decode time equal the hash of the canonical encoding.
-   (Wire messages are tied by the correspondence only; their decoders ignore version/reserved bytes by design.) *)
+   Wire messages (header + the seven messages): round trip for every well-formed message, decoded messages are well
+   formed and re-encodable; their decoders ignore the version byte and reserved padding by design, so canonicity holds
+   only outside header/hello (recorded: C07_wire_header_not_canonical). *)
 From Coq Require Import NArith List.
-From SkV Require Import Bytes Vlq VlqProofs Codec CodecProofs.
+From SkV Require Import Bytes Vlq VlqProofs Codec CodecProofs Wire WireProofs.
 Import ListNotations.
 Open Scope N_scope.
 
@@ -73,6 +75,22 @@ Theorem C07_enc_injective :
   (forall a b, wf_block a = true -> wf_block b = true -> enc_block a = enc_block b -> a = b).
 Proof. repeat split; [exact enc_tx_inj | exact enc_header_inj | exact enc_block_inj]. Qed.
 
+Theorem C07_roundtrip_wire_msg : forall m r, wf_msg m = true -> dec_msg (enc_msg m ++ r) = Some (m, r).
+Proof. exact dec_msg_roundtrip. Qed.
+Theorem C07_roundtrip_wire_header : forall h r, wf_msg_header h = true -> dec_msg_header (enc_msg_header h ++ r) = Some (h, r).
+Proof. exact dec_msg_header_roundtrip. Qed.
+Theorem C07_roundtrip_frame : forall h m trailing, wf_msg_header h = true -> wf_msg m = true ->
+  dec_frame (enc_msg_header h ++ enc_msg m ++ trailing) = Some (h, m).
+Proof. exact dec_frame_roundtrip. Qed.
+Theorem C07_wire_decoded_wf : forall bs m r, bytes_wf bs -> dec_msg bs = Some (m, r) -> wf_msg m = true /\ bytes_wf r.
+Proof. exact dec_msg_wf. Qed.
+Theorem C07_wire_header_not_canonical : exists bs h r, bytes_wf bs /\ dec_msg_header bs = Some (h, r) /\ enc_msg_header h ++ r <> bs.
+Proof. exact dec_msg_header_ignores_version. Qed.
+
+Print Assumptions C07_roundtrip_wire_msg.
+Print Assumptions C07_roundtrip_wire_header.
+Print Assumptions C07_roundtrip_frame.
+Print Assumptions C07_wire_decoded_wf.
 Print Assumptions C07_vlq_roundtrip.
 Print Assumptions C07_vlq_canonical.
 Print Assumptions C07_vlq_lenient_refuted.
